@@ -591,6 +591,10 @@ def r618(ctx):
 
 
 def run(ctx):
+    ctx.rule("R-6.19", "stopping after any step leaves a restart file that loads: restart.toml is complete when it takes the final name (dump, close, then the replace; shared with C08 R-8.2)", floor=1)
+    from . import c08 as _c08p
+    from .shared import RuleProxy as _RP6p
+    ctx.attempt(_c08p.r82, _RP6p(ctx, "R-6.19", " (a kill between the rename and the close leaves an empty restart.toml and no older copy: the run cannot be continued, let alone reproduce the uninterrupted one)"))
     ctx.rule("R-6.6", "in-flight jobs are persisted and re-issued in one ensemble-index unit (offset symmetry of current.locked; shared with C08 R-8.7)", floor=4)
     ctx.rule("R-6.1", "restart.toml writer/reader agreement: keys, roles, key representation", floor=12)
     ctx.rule("R-6.2", "restore provenance of the scheduler stream (cross-reference to C07)", floor=1)
@@ -641,6 +645,7 @@ def run(ctx):
 
 
 VARIANTS = [
+    B("c06-restart-file-renamed-while-open", REPEX, '        os.replace("./restart.toml.tmp", "./restart.toml")\n', '            os.replace("./restart.toml.tmp", "./restart.toml")\n', "R-6.19", control=True, why="seeded C06_p"),
     B("c06-order-file-read-in-single-precision", FORMATTER_REL, '                "data": np.array(blocks["data"]),', '                "data": np.array(blocks["data"], dtype=np.float32),', "R-6.18", control=True, why="seeded C06_m"),
     B("c06-spawn-counter-counts-reissued-jobs", REPEX, "            n_children_spawned=self.cstep,", "            n_children_spawned=self.cstep + len(self.config[\"current\"].get(\"locked\", [])),", "R-6.17", control=True, why="seeded C06_l"),
     B("c06-zero-swap-hands-live-frame-to-engine", TIS, "path_old0.phasepoints[-1].copy()", "path_old0.phasepoints[-1]", "R-6.16", control=True, why="seeded C06_j"),
